@@ -77,7 +77,11 @@ func replayRecord(rec *ReplayRecord) (bool, string) {
 			return false, "replay patch does not apply to this tree: " + sp.File
 		}
 		p := filepath.Join(tmp, fmt.Sprintf("patched%d.go", k))
-		os.WriteFile(p, []byte(strings.Replace(string(src), sp.Old, sp.New, -1)), 0o644)
+		patched := strings.Replace(string(src), sp.Old, sp.New, -1)
+		if strings.HasPrefix(sp.Old, "time.") && !strings.Contains(patched, "var _ = time.Now // verif") {
+			patched += "\nvar _ = time.Now // verif: keeps the time import used after the clock was redirected\n"
+		}
+		os.WriteFile(p, []byte(patched), 0o644)
 		repl[target] = p
 	}
 	// mirror the symbolic redirect table natively (see replay_redirect.go);
